@@ -251,6 +251,23 @@ impl Scenario for Chunk {
         let reference = run_reads(&plan.doc, &shared, &slice_st, plan.reader, plan.cfg, tag, false);
         st.executions += 1;
         monitor_violations(&reference, plan, "slice run", &mut out);
+        if self.corpus && plan.reader == ReaderKind::Plain && plan.stream.eof_at.is_none() {
+            // Reader::from_file: the one source constructor that builds its own BufReader.
+            // A real (scratch) file, written completely before it is opened, or still empty
+            // when it is opened and filled before the first read.
+            for late in [false, true] {
+                st.executions += 1;
+                st.bump(if late { "source.from_file(filled after open)" } else { "source.from_file" });
+                if let Some(d) = file_run_differs(plan, &reference, late) {
+                    out.push(Violation::new(
+                        "C02",
+                        "stream-differs-from-slice",
+                        format!("Reader::from_file ({}): {}", if late { "file still empty when opened, filled before the first read" } else { "complete file" }, d),
+                    ));
+                    break;
+                }
+            }
+        }
         // Reader::from_str is only comparable for UTF-8 text without an encoding declaration
         // and without a UTF-16 style signature (with the `encoding` feature from_str locks UTF-8)
         let str_ok = std::str::from_utf8(&plan.doc).is_ok()
@@ -419,6 +436,54 @@ impl Scenario for Soup {
 /// input; only the C03 monitors apply
 fn run_ops_monitored(plan: &Plan, shared: &Rc<Vec<u8>>) -> RunRec {
     run_ops_on(plan, shared, &plan.stream, false)
+}
+
+/// read a scratch file through Reader::from_file and compare with the slice run
+fn file_run_differs(plan: &Plan, reference: &RunRec, late: bool) -> Option<String> {
+    use crate::rd::Out;
+    use std::io::Write;
+    let path = std::env::temp_dir().join(format!("qxsim-{}-{}-{}.xml", std::process::id(), plan.run, late as u8));
+    let cleanup = |p: &std::path::Path| {
+        let _ = std::fs::remove_file(p);
+    };
+    let fail = |what: String| -> ! {
+        eprintln!("HARNESS ERROR (scratch file {}): {}", path.display(), what);
+        std::process::exit(2);
+    };
+    let mut f = std::fs::File::create(&path).unwrap_or_else(|e| fail(format!("create: {}", e)));
+    if !late {
+        f.write_all(&plan.doc).and_then(|_| f.sync_all()).unwrap_or_else(|e| fail(format!("write: {}", e)));
+    }
+    let res = crate::core::guard(|| {
+        let mut r = match quick_xml::Reader::from_file(&path) {
+            Ok(r) => r,
+            Err(e) => return Some(format!("from_file failed: {:?}", e)),
+        };
+        if late {
+            if let Err(e) = f.write_all(&plan.doc).and_then(|_| f.sync_all()) {
+                fail(format!("late write: {}", e));
+            }
+        }
+        apply_cfg(r.config_mut(), plan.cfg);
+        let mut buf = Vec::new();
+        for (i, want) in reference.steps.iter().enumerate() {
+            buf.clear();
+            let got = Out::from(r.read_event_into(&mut buf).map(|e| e.into_owned()));
+            let pos = r.buffer_position();
+            if got != want.out || pos != want.pos {
+                return Some(format!("step {}: slice gave [{} pos={}], the file reader gave [{} pos={}]", i, want.out.short(), want.pos, got.short(), pos));
+            }
+            if got.is_eof() || got.is_err() {
+                break;
+            }
+        }
+        None
+    });
+    cleanup(&path);
+    match res {
+        Ok(d) => d,
+        Err(p) => Some(format!("panic at {}: {}", p.loc, p.msg)),
+    }
 }
 
 /// run the plan's call history over stream `st`; with `stop_on_io` the caller gives up at
